@@ -2,7 +2,7 @@
 import itertools
 
 from vlib.core import Cond
-from vlib.props.pgen import gen_model, sfx, variants
+from vlib.props.pgen import XREGIONS, gen_model, sfx, variants
 
 HEAD = '''
 from vlib.h.pipe import *
@@ -140,9 +140,10 @@ def conditions(tier):
                   f"input F F (abutting contigs, strands {cs}) cut once, two painted groups, piece strands {ps}"))
     for ps in itertools.product((1, -1), repeat=4):
         if ps[0] == 1:
-            n = "x_" + sfx((), ps)
-            t.append(("two_scaffolds_cross_joined_" + sfx((), ps), _m(n, [("S1", "FGF"), ("S2", "FF")], ((1, 1), [(0, 0, 0), (0, 1, 1), (1, 1, 0), (1, 0, 1)]), (1, -1, -1, 1), ps), n, 9000,
-                      f"inputs F G F (+,-) and F F (-,+), one cut each, pieces cross-joined, piece strands {ps}"))
+            for rk, rpre in XREGIONS:
+                n = f"x_{rk}_" + sfx((), ps)
+                t.append((f"two_scaffolds_cross_joined_{rk}_" + sfx((), ps), _m(n, [("S1", "FGF"), ("S2", "FF")], ((1, 1), [(0, 0, 0), (0, 1, 1), (1, 1, 0), (1, 0, 1)]), (1, -1, -1, 1), ps, extra_pre=rpre), n, 3000,
+                          f"inputs F G F (+,-) and F F (-,+), one cut each (cut rows: {rk}; the six row combinations together cover every cut position), pieces cross-joined, piece strands {ps}"))
     src_t = HEAD + "".join(x[1] for x in t)
     for (nm, _, fn, to, bound) in t:
         out.append(Cond(nm, src_t, fn, to, bound, tier="thorough", replay="replay_model", encodes=ENC))
